@@ -78,14 +78,15 @@ func (c *gatedConn) Read(p []byte) (int, error)  { return c.r.Read(p) }
 func (c *gatedConn) Write(p []byte) (int, error) { return len(p), nil }
 
 type gFile struct {
-	name    string
-	kind    byte // f l
-	oldKind byte // 0 absent, f, l
-	old     []byte
-	oldTgt  string
-	new     []byte
-	newTgt  string
-	delta   bool
+	name     string
+	kind     byte // f l
+	oldKind  byte // 0 absent, f, l
+	old      []byte
+	oldTgt   string
+	new      []byte
+	newTgt   string
+	delta    bool
+	announce int64 // length the list announces, if different from len(new)
 }
 
 var tempRe = regexp.MustCompile(`^\..+[0-9]+$`)
@@ -121,6 +122,10 @@ func suiteGated(h *H) {
 			{name: long, kind: 'f', oldKind: 'f', old: []byte("long old"), new: mkContent(1200, 7)},
 			{name: "y" + strings.Repeat("m", 100), kind: 'f', new: mkContent(600, 8)},
 		},
+		{ // a list that announces far more than arrives (the source shrank; or a peer that lies): nothing may be reserved and left behind
+			{name: "huge-announced", kind: 'f', oldKind: 'f', old: []byte("previous content"), new: mkContent(700, 11), announce: 1 << 62},
+			{name: "also", kind: 'f', new: mkContent(400, 12), announce: 5 << 20},
+		},
 		{
 			{name: strings.Repeat("L", 250), kind: 'f', oldKind: 'f', old: []byte("very long name, old"), new: mkContent(1000, 9)},
 			{name: "z-after", kind: 'f', oldKind: 'f', old: []byte("z old"), new: mkContent(500, 10)},
@@ -145,7 +150,11 @@ func suiteGated(h *H) {
 		}
 		for _, f := range files {
 			if f.kind == 'f' {
-				es = append(es, hostileFile{e: refEntry{name: []byte(f.name), mode: sIFREG | 0o644, size: int64(len(f.new)), mtime: 1500000009}, data: f.new})
+				sz := int64(len(f.new))
+				if f.announce != 0 {
+					sz = f.announce
+				}
+				es = append(es, hostileFile{e: refEntry{name: []byte(f.name), mode: sIFREG | 0o644, size: sz, mtime: 1500000009}, data: f.new})
 			} else {
 				es = append(es, hostileFile{e: refEntry{name: []byte(f.name), mode: sIFLNK | 0o777, size: int64(len(f.newTgt)), mtime: 1500000009, target: []byte(f.newTgt)}})
 			}
@@ -335,8 +344,10 @@ func suiteGated(h *H) {
 			})
 			return bad
 		}
+		var extraOpts []string // further command-line options of the session under test
 		runSession := func(dst string, g *gateReader) chan string {
 			done := make(chan string, 1)
+			extra := append([]string{}, extraOpts...)
 			go func() {
 				defer func() {
 					if r := recover(); r != nil {
@@ -345,7 +356,10 @@ func suiteGated(h *H) {
 				}()
 				osenv := &rsyncos.Env{Stdout: io.Discard, Stderr: io.Discard, DontRestrict: true}
 				pc := rsyncopts.NewContext(rsyncopts.NewOptionsWithGokrazyDefaults(osenv))
-				pc.ParseArguments(osenv, []string{"-rlt", "host::m/", dst})
+				if perr := pc.ParseArguments(osenv, append(append([]string{"-rlt"}, extra...), "host::m/", dst)); perr != nil {
+					done <- "optserr:" + perr.Error()
+					return
+				}
 				_, err := maincmd.ClientRun(osenv, pc.Options, &gatedConn{r: g}, []string{dst}, false)
 				if err != nil {
 					done <- "err:" + strings.SplitN(err.Error(), "\n", 2)[0]
@@ -471,33 +485,49 @@ func suiteGated(h *H) {
 		}
 		// ---- writing fails during the session (file size limit, like a full disk or an exceeded quota):
 		// the session must fail, and every listed path holds its complete old or new state, nothing partial
-		for _, limit := range []uint64{1, 300, 640, 1024, 1400} {
-			dst := setup()
-			var oldLim unix.Rlimit
-			unix.Getrlimit(unix.RLIMIT_FSIZE, &oldLim)
-			signal.Ignore(syscall.SIGXFSZ)
-			unix.Setrlimit(unix.RLIMIT_FSIZE, &unix.Rlimit{Cur: limit, Max: oldLim.Max})
-			out := <-runSession(dst, &gateReader{data: stream, gate: -1, cut: -1, arrived: make(chan struct{}), release: make(chan struct{})})
-			unix.Setrlimit(unix.RLIMIT_FSIZE, &oldLim)
-			v := ""
-			w := inspect(dst, out != "ok")
-			for i := 0; i < 100 && w != "" && out != "ok"; i++ {
-				time.Sleep(4 * time.Millisecond)
-				w = inspect(dst, true)
-			}
-			if w != "" {
-				v = fmt.Sprintf("FAIL[C04] with writes failing beyond %d bytes per file (%s): %s", limit, strings.SplitN(out, ":", 2)[0], w)
-			} else if out == "ok" {
-				for _, f := range files {
-					if s := stateOf(dst, f); s != "new" {
-						v = fmt.Sprintf("FAIL[C01] with writes failing beyond %d bytes per file the session reported success but %q is %s", limit, shortName(f.name), s)
+		// the same with every option of rsync's vocabulary that changes how the receiver writes its files, as far
+		// as this implementation accepts it (an option it does not know is a usage error and the case is void)
+		writeOpts := [][]string{nil, {"--preallocate"}, {"--inplace"}, {"--partial"}, {"--sparse"}, {"--append"}, {"--whole-file"},
+			{"--delay-updates"}, {"--temp-dir=" + base}, {"--partial-dir=.rsync-partial"}, {"--fsync"}, {"--backup"}, {"-v"}, {"--progress"}}
+		for _, wo := range writeOpts {
+			extraOpts = wo
+			for _, limit := range []uint64{1, 300, 640, 1024, 1400} {
+				if wo != nil && limit != 300 && limit != 1024 {
+					continue
+				}
+				dst := setup()
+				var oldLim unix.Rlimit
+				unix.Getrlimit(unix.RLIMIT_FSIZE, &oldLim)
+				signal.Ignore(syscall.SIGXFSZ)
+				unix.Setrlimit(unix.RLIMIT_FSIZE, &unix.Rlimit{Cur: limit, Max: oldLim.Max})
+				out := <-runSession(dst, &gateReader{data: stream, gate: -1, cut: -1, arrived: make(chan struct{}), release: make(chan struct{})})
+				unix.Setrlimit(unix.RLIMIT_FSIZE, &oldLim)
+				v := ""
+				w := inspect(dst, out != "ok")
+				for i := 0; i < 100 && w != "" && out != "ok"; i++ {
+					time.Sleep(4 * time.Millisecond)
+					w = inspect(dst, true)
+				}
+				if w != "" {
+					v = fmt.Sprintf("FAIL[C04] with writes failing beyond %d bytes per file (%s): %s", limit, strings.SplitN(out, ":", 2)[0], w)
+				} else if out == "ok" {
+					for _, f := range files {
+						if s := stateOf(dst, f); s != "new" {
+							v = fmt.Sprintf("FAIL[C01] with writes failing beyond %d bytes per file the session reported success but %q is %s", limit, shortName(f.name), s)
+						}
 					}
 				}
+				if strings.HasPrefix(out, "optserr") {
+					os.RemoveAll(dst)
+					h.stat("gated.write-limit.option-not-accepted")
+					continue
+				}
+				h.emit(fmt.Sprintf("!gated seed=%d variant=%d write-limit=%d opts=%v", h.seed, vi, limit, wo), strings.SplitN(out, ":", 2)[0], v, true)
+				h.stat("gated.write-limit." + strings.SplitN(out, ":", 2)[0])
+				os.RemoveAll(dst)
 			}
-			h.emit(fmt.Sprintf("!gated seed=%d variant=%d write-limit=%d", h.seed, vi, limit), strings.SplitN(out, ":", 2)[0], v, true)
-			h.stat("gated.write-limit." + strings.SplitN(out, ":", 2)[0])
-			os.RemoveAll(dst)
 		}
+		extraOpts = nil
 		// ---- connection lost at byte N
 		for _, n := range positions {
 			dst := setup()
